@@ -408,6 +408,46 @@ def generate(ctx):
     return defs
 
 
+def oracle_reactor_step(ctx, rng, n):
+    """the step the Reactor selects for a whole core vs the limits of its assemblies recomputed here with the real limit
+    functions, assembly by assembly (flow-rate, outlet-temperature and temperature-rise boundary conditions, clones of one type
+    at different powers)"""
+    import shutil
+    import dassh.assembly as DA
+    from harness import gen_input as gi
+    for ci in range(n):
+        pos = [(1, 1)] + [p for p in gi.core_positions(2)[1:] if rng.random() < 0.6]
+        case = gi.random_case(rng, positions=pos, n_types=rng.choice([1, 1, 2]), gap_model=rng.choice(['none', 'no_flow', 'flow']),
+                              length=0.1, flow_range=(0.05, 4.0))
+        bc = rng.choice(['flowrate', 'outlet_temp', 'delta_temp'])
+        if bc != 'flowrate':
+            val = round(rng.uniform(80, 160), 2)
+            for a in case['assignment']:
+                a.pop('flowrate', None)
+                a[bc] = val + (case['core']['coolant_inlet_temp'] if bc == 'outlet_temp' else 0.0)
+        gi.random_power(rng, case)
+        d = str(ctx.work / ("rs%d" % ci))
+        try:
+            inp, r = gi.build_reactor(case, d)
+        except SystemExit:
+            ctx.count("reactor_step_rejected")
+            continue
+        ctx.evals += 1
+        try:
+            lims = [float(DA.calculate_min_dz(a, r.inlet_temp, a._estimated_T_out, r._is_adiabatic)[0]) for a in r.assemblies]
+        except (SystemExit, KeyError, TypeError, IndexError, ValueError, ZeroDivisionError):
+            ctx.count("reactor_step_limit_not_evaluable")
+            shutil.rmtree(d, ignore_errors=True)
+            continue
+        ctx.count("reactor_step_checked:" + bc)
+        if float(np.max(r.dz)) > min(lims) * (1 + 1e-9) + 1e-12:
+            k = int(np.argmin(lims))
+            ctx.violation("c04-reactor-step:" + bc, "the step selected for the core (%.6g m) exceeds the limit %.6g m of assembly %d "
+                          "(flow %.4g kg/s) recomputed with the real limit function; its explicit update has a negative self weight"
+                          % (float(np.max(r.dz)), lims[k], k, float(r.assemblies[k].flow_rate)), case=case, limits=lims)
+        shutil.rmtree(d, ignore_errors=True)
+
+
 def run(ctx):
     rng = random.Random(2000 + ctx.seed)
     ctx.rule = ("T1b classes: every coolant/bypass cell of traced real regions, grouped by neighbour-type class; "
@@ -426,6 +466,7 @@ def run(ctx):
     oracle_rodded(ctx, rng, 200 if ctx.thorough else 40)
     oracle_unrodded(ctx, rng, 300 if ctx.thorough else 60)
     oracle_core(ctx, rng, 60 if ctx.thorough else 12)
+    oracle_reactor_step(ctx, rng, 40 if ctx.thorough else 10)
     ctx.trusted += ["T1b tracing translator harness/trace.py + harness/bundle_trace.py (symbolic execution of the real "
                     "setup/update/limit functions; cells of one class must agree as rational functions)",
                     "class coverage for ring counts beyond those traced relies on C08's tables"]
